@@ -116,6 +116,10 @@ REASONS = {"Missing source file": "MS", "Missing reference file": "MR", "Unsuppo
            "Filtered out by given wildcard patterns": "D"}
 
 
+# (phase 6 G) extensions that are NOT registered anywhere (case-sensitive lookups): support = VTK sniffing of the content
+SNIFFED_EXTS_P6G = (".CSV", ".Csv", ".VTU", ".Vtu", ".old", ".bak", ".csv ", ".2", ".v")
+
+
 def _have_meshio() -> bool:
     """is '.dat' a mesh extension in this environment? (what fieldcompare's optional meshio bridge needs)"""
     try:
@@ -135,11 +139,11 @@ HAVE_MESHIO = _have_meshio()
 def oracle_supported(rel: str, content_a: str) -> bool:
     """format support of the SOURCE file: extension, or VTK flavour sniffed from the first 1024 bytes"""
     ext = os.path.splitext(rel)[1]
-    if ext in (".csv", ".vtu"):
+    if ext in (".csv", ".vtu", ".pvd"):
         return True
     if ext == ".dat":
         return HAVE_MESHIO
-    if ext in (".txt", ".log", ".dsv", "", ".v2"):
+    if ext in (".txt", ".log", ".dsv", "", ".v2") or ext in SNIFFED_EXTS_P6G:
         head = content_a.encode()[:1024]
         return b"<VTKFile" in head and b'type="UnstructuredGrid"' in head
     raise ValueError(f"generator produced an extension without support oracle: {ext!r}")
@@ -192,7 +196,20 @@ def passthrough_args(o) -> list[str]:
         a += ["--exclude-fields", p]
     if o.get("verbosity") is not None:
         a += ["--verbosity", str(o["verbosity"])]
+    # (phase 6 G) the remaining pass-through options of the two parsers
+    if o.get("atol") is not None:
+        a += ["-atol", o["atol"]]
+    for p in o.get("include_fields") or []:
+        a += ["--include-fields", p]
+    for k, flag in PASS_FLAGS_P6G.items():
+        if o.get(k):
+            a.append(flag)
     return a
+
+
+PASS_FLAGS_P6G = {"no_reorder": "--disable-mesh-reordering", "no_orphan_removal": "--disable-mesh-orphan-point-removal",
+                  "no_dim_match": "--disable-mesh-space-dimension-matching",
+                  "ign_steps": "--ignore-missing-sequence-steps", "force_seq": "--force-sequence-comparison"}
 
 
 def dir_args(o) -> list[str]:
@@ -225,10 +242,46 @@ class Scratch:
         shutil.rmtree(self.base, ignore_errors=True)
 
 
-def build_tree(d: str, files) -> tuple[str, str]:
-    a, b = os.path.join(d, ROOT_A), os.path.join(d, ROOT_B)
-    os.makedirs(a)
-    os.makedirs(b)
+NEST_A, NEST_B = "nestA_qz", "nestB_qz"     # never used as a generated directory / file name
+
+
+def tree_roots(d: str, relation: str = "plain") -> tuple[str, str]:
+    """(phase 6 G) where the two trees live: side by side, the SAME directory, or one inside the other"""
+    if relation == "same":
+        return os.path.join(d, ROOT_A), os.path.join(d, ROOT_A)
+    if relation == "b-in-a":
+        return os.path.join(d, ROOT_A), os.path.join(d, ROOT_A, NEST_B)
+    if relation == "a-in-b":
+        return os.path.join(d, ROOT_B, NEST_A), os.path.join(d, ROOT_B)
+    return os.path.join(d, ROOT_A), os.path.join(d, ROOT_B)
+
+
+def spell(root: str, d: str, how: str) -> str:
+    """(phase 6 G) the way a directory is written on the command line (the process works in `d` for the relative ones)"""
+    rel = os.path.relpath(root, d)
+    if how == "slash":
+        return root + "/"
+    if how == "rel":
+        return rel
+    if how == "relslash":
+        return rel + "/"
+    if how == "dot":
+        return "./" + rel
+    if how == "dotslash":
+        return "./" + rel + "/"
+    if how == "dotdot":
+        return os.path.join(root, "..", os.path.basename(root))
+    if how == "dbl":
+        return os.path.dirname(root) + "//" + os.path.basename(root)
+    return root
+
+
+def build_tree(d: str, files, relation: str = "plain", empty_dirs=None) -> tuple[str, str]:
+    a, b = tree_roots(d, relation)
+    os.makedirs(a, exist_ok=True)
+    os.makedirs(b, exist_ok=True)
+    for side, rel in empty_dirs or []:
+        os.makedirs(os.path.join(a if side == "A" else b, rel), exist_ok=True)
     for rel, ca, cb in files:
         for root, c in ((a, ca), (b, cb)):
             if c is None:
@@ -327,15 +380,30 @@ def _dir_main_with_info(argv):
     return rc, log, seen
 
 
-def run_dir_mode(a: str, b: str, o, xml: str, rels: list[str]) -> dict:
+def map_suite_name_p6g(name: str, rels: list[str], marker=None):
+    """(phase 6 G) exact names first (the suites of uncompared paths carry the relative path); a compared suite of a
+    source tree that lives INSIDE the reference tree is recognised by the marker directory of that tree"""
+    if name in rels:
+        return name
+    if marker is not None and ("/" + marker + "/") in ("/" + name):
+        tail = ("/" + name).rsplit("/" + marker + "/", 1)[1]
+        if tail in rels:
+            return tail
+    return map_suite_name(name, rels)
+
+
+def run_dir_mode(a: str, b: str, o, xml: str, rels: list[str], mapper=None, also_nojunit=False) -> dict:
     if os.path.exists(xml):
         os.remove(xml)
+    mapper = mapper or map_suite_name
     rc, log, infos = _dir_main_with_info(["dir", a, b, "--junit-xml", xml] + dir_args(o))
     obs = {"exit": rc, "suites": [], "orphans": None, "unmapped": [], "reasons": {}}
+    if also_nojunit:
+        obs["exit_nojunit"] = _quiet_main(["dir", a, b] + dir_args(o))[0]
     if os.path.exists(xml):
         for el in ET.parse(xml).getroot().findall("testsuite"):
             name = el.get("name")
-            rel = map_suite_name(name, rels)
+            rel = mapper(name, rels)
             if rel is None:
                 obs["unmapped"].append(name)
                 continue
@@ -400,7 +468,10 @@ def expected_classes(code: str, file_cls):
     if code == "F":
         return {"bad"}
     if code in ("E", "X"):
-        return {"ok", "bad"}      # a suite-level error has no failing test case today (C20/F5); tolerate a repair
+        # a suite-level error has no failing test case today (C20/F5); tolerate a repair.  (phase 6 G) If every test case
+        # of the pair is skipped (e.g. --include-fields selects nothing) and the failure is suite-level only (sequence
+        # step with a differing mesh), file mode's own report of that pair is all-skipped too: accept what file mode shows
+        return {"ok", "bad"} | ({"skip"} if file_cls == "skip" else set())
     if code in ("MS", "MR"):
         return {"bad"}
     return {"skip"}               # ms mr U D
@@ -428,20 +499,45 @@ def parse_obs(s: str, rows):
     return int(e), int(n), sorted(items)
 
 
+def _wipe(d: str):
+    for name in (ROOT_A, ROOT_B):
+        shutil.rmtree(os.path.join(d, name), ignore_errors=True)
+
+
 def observe(case, scratch: Scratch):
-    """build the tree, run directory mode and file mode on every common path -> (rows, obs, file_cls)"""
+    """build the tree, run directory mode and file mode on every common path -> (rows, obs, file_cls)
+    (phase 6 G) optional keys of a case: `form` = {relation, a, b, nojunit} (how the two trees relate and how the two
+    directories are spelled on the command line; the process works inside the scratch directory meanwhile),
+    `empty_dirs` = [[side, rel]], `prior` = earlier states [{files, opts, empty_dirs}] of the SAME two paths that
+    directory mode is run on first, in this process (the trees are wiped and rebuilt between the states)"""
     files, o = case["files"], case["opts"]
+    form = case.get("form") or {}
+    relation = form.get("relation", "plain")
     d = scratch.fresh()
+    cwd = os.getcwd()
     try:
-        a, b = build_tree(d, files)
-        rels = [f[0] for f in files]
+        if form:
+            os.chdir(d)
         xml = os.path.join(d, "report.xml")
-        obs = run_dir_mode(a, b, o, xml, rels)
+        ra, rb = tree_roots(d, relation)
+        arg_a, arg_b = spell(ra, d, form.get("a", "abs")), spell(rb, d, form.get("b", "abs"))
+        for prior in case.get("prior") or []:
+            build_tree(d, prior["files"], relation, prior.get("empty_dirs"))
+            run_dir_mode(arg_a, arg_b, prior["opts"], xml, [f[0] for f in prior["files"]])
+            _wipe(d)
+        a, b = build_tree(d, files, relation, case.get("empty_dirs"))
+        rels = [f[0] for f in files]
+        mapper = None
+        if form:
+            marker = NEST_A if relation == "a-in-b" else None
+            mapper = lambda name, rels_: map_suite_name_p6g(name, rels_, marker)      # noqa: E731
+        obs = run_dir_mode(arg_a, arg_b, o, xml, rels, mapper, bool(form.get("nojunit")))
         rows, file_cls = [], {}
         for rel, ca, cb in files:
             outcome = "X"
             if ca is not None and cb is not None:
-                outcome, file_cls[rel] = run_file_mode(a, b, rel, o, os.path.join(d, "file.xml"))
+                outcome, file_cls[rel] = run_file_mode(arg_a if form else a, arg_b if form else b, rel, o,
+                                                       os.path.join(d, "file.xml"))
             rows.append({"rel": rel, "inA": ca is not None, "inB": cb is not None,
                          "incl": oracle_incl(rel, o.get("include")), "excl": oracle_excl(rel, o.get("exclude")),
                          "supported": oracle_supported(rel, ca) if ca is not None else False,
@@ -449,11 +545,12 @@ def observe(case, scratch: Scratch):
         walk = None
         try:
             from fieldcompare._matching import _find_sub_files_recursively
-            walk = (sorted(_find_sub_files_recursively(a)), sorted(_find_sub_files_recursively(b)))
+            walk = (sorted(_find_sub_files_recursively(arg_a)), sorted(_find_sub_files_recursively(arg_b)))
         except Exception as e:    # the helper is private: its absence is not a finding
             walk = None
         return rows, obs, file_cls, walk
     finally:
+        os.chdir(cwd)
         shutil.rmtree(d, ignore_errors=True)
 
 
@@ -463,6 +560,8 @@ def compare(rows, obs, file_cls, expected, o):
     diffs = []
     if obs["exit"] != exit_:
         diffs.append(f"exit code {obs['exit']} != {exit_}")
+    if "exit_nojunit" in obs and obs["exit_nojunit"] != exit_:
+        diffs.append(f"exit code without --junit-xml {obs['exit_nojunit']} != {exit_}")
     if obs["suites"] is None:
         diffs.append("no junit report written")
         return diffs
@@ -635,12 +734,15 @@ def small_scope_cases():
 # ------------------------------------------------------------------------------------------------
 def shrink(case, scratch, still_fails, budget=60):
     """greedy: drop files, then options, while `still_fails(case)` holds"""
-    cur = {"files": [list(f) for f in case["files"]], "opts": dict(case["opts"])}
+    extra = {k: v for k, v in case.items() if k not in ("files", "opts")}
+    if (extra.get("form") or {}).get("relation", "plain") != "plain":
+        return case                      # rows of nested / identical trees depend on each other: replay as generated
+    cur = dict(extra, files=[list(f) for f in case["files"]], opts=dict(case["opts"]))
     changed = True
     while changed and budget > 0:
         changed = False
         for i in range(len(cur["files"])):
-            cand = {"files": cur["files"][:i] + cur["files"][i + 1:], "opts": cur["opts"]}
+            cand = dict(extra, files=cur["files"][:i] + cur["files"][i + 1:], opts=cur["opts"])
             budget -= 1
             if still_fails(cand):
                 cur, changed = cand, True
@@ -649,8 +751,8 @@ def shrink(case, scratch, still_fails, budget=60):
                 break
     dflt = default_opts()
     for k in list(cur["opts"]):
-        if cur["opts"][k] != dflt[k] and budget > 0:
-            cand = {"files": cur["files"], "opts": dict(cur["opts"], **{k: dflt[k]})}
+        if cur["opts"][k] != dflt.get(k) and budget > 0:
+            cand = dict(extra, files=cur["files"], opts=dict(cur["opts"], **{k: dflt.get(k)}))
             budget -= 1
             if still_fails(cand):
                 cur = cand
@@ -713,19 +815,27 @@ def observation_o1(scratch) -> dict:
 def _tags(case, res):
     o = case["opts"]
     codes = res["spec"][2]
-    tags = [f"files={min(len(case['files']) // 5 * 5, 30)}+"]
+    tags = [f"files={min(len(case['files']) // 5 * 5, 30)}+" if len(case["files"]) < 100 else "files=100+"]
     tags += sorted({"code-" + c for c in codes.values()})
     tags.append(f"exit-{res['spec'][0]}")
     if res["spec"][1]:
         tags.append("orphans-filtered")
-    for k in ("include", "exclude", "read_as", "rtol", "exclude_fields"):
+    for k in ("include", "exclude", "read_as", "rtol", "exclude_fields", "atol", "include_fields"):
         if o.get(k):
             tags.append("opt-" + k)
-    for k in ("ims", "imr", "imsf", "imrf"):
+    for k in ("ims", "imr", "imsf", "imrf") + tuple(PASS_FLAGS_P6G):
         if o.get(k):
             tags.append("flag-" + k)
+    form = case.get("form") or {}
+    if form:
+        tags += ["trees-" + form.get("relation", "plain"), "argA-" + form.get("a", "abs"), "argB-" + form.get("b", "abs")]
+    if case.get("empty_dirs"):
+        tags.append("empty-directories")
+    if case.get("prior"):
+        tags.append(f"rerun-same-paths-{len(case['prior'])}-earlier-states")
+    tags += list(case.get("tags") or [])
     depth = max([f[0].count("/") + 1 for f in case["files"]] or [0])
-    tags.append(f"depth={depth}")
+    tags.append(f"depth={depth}" if depth <= 4 else "depth=5+")
     if any(ch in f[0] for f in case["files"] for ch in "*?["):
         tags.append("glob-chars-in-names")
     bases = [f[0].rsplit("/", 1)[-1] for f in case["files"]]
@@ -737,7 +847,9 @@ def _tags(case, res):
 def _record(ctx, case, res, scratch, group):
     codes = res["spec"][2]
     nontrivial = len(set(codes.values())) >= 2 or any(c != "P" for c in codes.values()) or res["spec"][1] > 0
-    key = (tuple(tuple(f) for f in sorted(case["files"])), tuple(sorted((k, str(v)) for k, v in case["opts"].items())))
+    key = (tuple(tuple(f) for f in sorted(case["files"], key=lambda f: f[0])),
+           tuple(sorted((k, str(v)) for k, v in case["opts"].items())),
+           repr(case.get("form")), repr(case.get("empty_dirs")), repr(case.get("prior")))
     ctx.case(key, nontrivial=nontrivial, tags=[group] + _tags(case, res),
              sample={"files": [[f[0], f[1] is not None, f[2] is not None] for f in case["files"]][:8],
                      "opts": {k: v for k, v in case["opts"].items() if v}, "impl": {"exit": res["obs"]["exit"],
@@ -770,6 +882,9 @@ def _record(ctx, case, res, scratch, group):
 def run(ctx):
     ctx.rule = ("case = (pair of created directory trees, dir-mode options); trees: depth <= 4, 0-25 files per side, "
                 "equal/differing/unreadable/unsupported/one-sided files, glob characters and equal basenames in names; "
+                "(phase 6 G, directed) directory spellings (trailing slash, cwd-relative, ./, .., //) x tree relations (side by side, "
+                "identical, one inside the other), prefix names / file-vs-directory / upper-case extensions / depth 8 / empty "
+                "directories, 150-400 files, all pass-through options incl. .pvd sequences in the trees, re-runs on the same paths; "
                 "non-trivial = the accounting has >= 2 distinct classes, or a non-passing class, or filtered orphans; "
                 "distinct = distinct (files with contents, options)")
     ctx.assumptions += [
@@ -792,6 +907,9 @@ def run(ctx):
             ctx.exhaustive = True
             ctx.notes.append(f"small scope exhaustive: {len(small)} (tree pair, flags, filter) cases")
         cases += [("small-scope", c) for c in small]
+        from fcv import c12_trees_p6g as P6G      # (phase 6 G) directed batches: see notes/PHASE6_G2_C12.md
+        import sys
+        cases += P6G.batches(ctx, sys.modules[__name__])
         CH = 250     # observe a chunk of cases, then ONE driver call for the chunk
         for i in range(0, len(cases), CH):
             chunk = cases[i:i + CH]
